@@ -89,6 +89,35 @@ def pstate(p):
     return [0, buf]
 
 
+def pshort(p):
+    """tag, length of the carried-over buffer, length of the body so far (Model/HttpFramingObs.obs_short)"""
+    st = pstate(p)
+    t = st[0]
+    if t == 0:
+        return [0, len(st[1]), 0]
+    if t == 1:
+        return [1, len(st[2]), 0]
+    if t == 2:
+        return [2, 0, len(st[5])]
+    if t == 3:
+        return [3, len(st[4]), len(st[3])]
+    if t == 4:
+        return [4, 0, len(st[3])]
+    if t == 5:
+        return [5, st[1], 0]
+    return [t, 0, 0]
+
+
+def compress(trace):
+    """keep the reads after which the phase changed or an event was fired"""
+    out, prev = [], 0
+    for i, (short, evs) in enumerate(trace):
+        if short[0] != prev or evs:
+            out.append([i, short, evs])
+        prev = short[0]
+    return out
+
+
 def fl_value(kind, line):
     p = RealParser(kind)
     ok = p._parse_firstline(line)
@@ -217,9 +246,9 @@ def drive_parser(kind, reads, tables):
                 p.execute(d, len(d))
             except Exception:
                 p.t_crash = True
-        trace.append(pstate(p))
+        trace.append([pshort(p), []])
     note_tables(tables, [p])
-    return trace
+    return [compress(trace), pstate(p)]
 
 
 def note_tables(tables, parsers):
@@ -261,7 +290,7 @@ def drive_server(msgs_reads, tables):
                         evs.append([1])
                     elif rec[0] == 'httperror' and rec[1] in (500, None) and not any(r[0] == 'request' for r in new):
                         evs.append([2])
-                trace.append([pstate(http._buffers.get(sock)), evs])
+                trace.append([pshort(http._buffers.get(sock)), evs])
                 for rec in new:
                     if rec[0] == 'write':
                         log.append(['write', strip_date(rec[1])])
@@ -275,7 +304,7 @@ def drive_server(msgs_reads, tables):
                 flat[-1] = ['write', flat[-1][1] + rec[1]]
             else:
                 flat.append(list(rec))
-        return trace, flat, [len(http._buffers), len(http._clients)]
+        return [compress(trace), pstate(http._buffers.get(sock))], flat, [len(http._buffers), len(http._clients)]
     finally:
         webhttp.HttpParser = old
 
@@ -313,15 +342,11 @@ def drive_client(msgs_reads, tables):
                 evs = [[0, p.t_fl or '', l1(p.t_blk or b''), rec[4]] for rec in new]
                 if p.t_crash:
                     evs.append([2])
-                cur = comp._parser
-                st = pstate(cur)
-                if st == [0, ''] or (cur is not p):
-                    st = pstate(cur)
-                trace.append([st, evs])
+                trace.append([pshort(comp._parser), evs])
                 log.extend(new)
         note_tables(tables, TParser.created)
         last = cl.response
-        return trace, log, None if last is None else [last.status, l1(last.body.getvalue())]
+        return [compress(trace), pstate(comp._parser)], log, None if last is None else [last.status, l1(last.body.getvalue())]
     finally:
         parsers_pkg.HttpParser = old
         try:
@@ -634,7 +659,7 @@ class C13(Prop):
             kind = int(k[-1])
             tr = drive_parser(kind, seg[0], tables)
             tr1 = drive_parser(kind, whole[0], tables)
-            obs = {'trace': tr, 'final': tr[-1], 'final_whole': tr1[-1]}
+            obs = {'trace': tr, 'final': tr[1], 'final_whole': tr1[1]}
         elif k == 'server':
             tr, log, tabs = drive_server(seg, tables)
             tr1, log1, tabs1 = drive_server(whole, tables)
@@ -643,9 +668,8 @@ class C13(Prop):
             tr, log, last = drive_client(seg, tables)
             tr1, log1, last1 = drive_client(whole, tables)
             obs = {'trace': tr, 'log': log, 'log_whole': log1, 'last': last, 'last_whole': last1,
-                   'final': tr[-1][0], 'final_whole': tr1[-1][0]}
-        fin = obs['trace'][-1]
-        tag = fin[0] if k.startswith('parser') else fin[0][0]
+                   'final': tr[1], 'final_whole': tr1[1]}
+        tag = obs['trace'][1][0]
         st['final_tags'][str(tag)] = st['final_tags'].get(str(tag), 0) + 1
         self._tables[common.canon(c)] = tables
         return obs
@@ -658,32 +682,45 @@ class C13(Prop):
             tables = self._tables.get(common.canon(c), {'fl': {}, 'hd': {}})
         k = c['k']
         kind = 1 if k in ('parser1', 'client') else 0
-        fl = []
+        mode = 0 if k.startswith('parser') else 1 if k == 'server' else 2
+        msg = b''.join(m['bytes'].encode('latin-1') for m in c['msgs'])
+        cuts, off = [], 0
+        for m in c['msgs']:
+            if off:
+                cuts.append(off)
+            cuts.extend(off + p for p in m['cuts'])
+            off += len(m['bytes'])
+
+        def entries(items, fmt):
+            sl, lit = [], []
+            for key, v in items:
+                o = msg.find(key)
+                if o >= 0:
+                    sl.append('(%d%%nat, %d%%nat, %s)' % (o, len(key), fmt(v)))
+                else:
+                    lit.append('(%s, %s)' % (nlist(key), fmt(v)))
+            return '[%s]' % '; '.join(sl), '[%s]' % '; '.join(lit)
+
+        def fmt_fl(v):
+            return 'None' if v is None else 'Some %s' % ('true' if v else 'false')
+
+        def fmt_hd(v):
+            if v is None:
+                return 'None'
+            clen, ch = v
+            return 'Some (%s, %s)' % ('None' if clen is None else 'Some (%d)%%Z' % clen, 'true' if ch else 'false')
+        fl_items = []
         for (kd, line), v in sorted(tables['fl'].items()):
             if kd != kind:
                 continue
             try:
-                key = line.encode('latin-1')
+                fl_items.append((line.encode('latin-1'), v))
             except UnicodeEncodeError:
                 continue
-            fl.append('(%s, %s)' % (nlist(key), 'None' if v is None else 'Some %s' % ('true' if v else 'false')))
-        hd = []
-        for blk, v in sorted(tables['hd'].items()):
-            if v is None:
-                val = 'None'
-            else:
-                clen, ch = v
-                val = 'Some (%s, %s)' % ('None' if clen is None else 'Some (%d)%%Z' % clen, 'true' if ch else 'false')
-            hd.append('(%s, %s)' % (nlist(blk), val))
-        tfl = '[%s]' % '; '.join(fl)
-        thd = '[%s]' % '; '.join(hd)
-        reads = []
-        for m in c['msgs']:
-            reads.extend(reads_of(m))
-        rl = nlistlist(reads)
-        if k.startswith('parser'):
-            return 'obs_parser %s %s %s %s' % ('true' if kind else 'false', tfl, thd, rl)
-        return 'obs_conn %s %s %s %s' % ('true' if kind else 'false', tfl, thd, rl)
+        sfl, lfl = entries(fl_items, fmt_fl)
+        shd, lhd = entries(sorted(tables['hd'].items()), fmt_hd)
+        return 'obs_run %d%%nat %s %s [%s]%%nat %s %s %s %s' % (
+            mode, 'true' if kind else 'false', nlist(msg), ';'.join(str(x) for x in cuts), sfl, lfl, shd, lhd)
 
     def obs_for_model(self, c, obs):
         if isinstance(obs, dict) and '__crash__' in obs:
@@ -695,7 +732,8 @@ class C13(Prop):
         if isinstance(obs, dict) and '__crash__' in obs:
             return None
         k = c['k']
-        nocut = all(not m['cuts'] for m in c['msgs'])
+        if any(m['expect'] is None for m in c['msgs']):
+            return None        # malformed input: outside this property (C14); correspondence only
         if k.startswith('parser'):
             m = c['msgs'][0]
             a, b = obs['final'], obs['final_whole']
@@ -769,6 +807,11 @@ def match_request(r, e):
     if body != e['body']:
         return 'body seen %r, sent %r' % (body, e['body'])
     return None
+
+
+# Coq elaborates large literals slowly: smaller shards, evaluated in parallel by the framework
+_orig_mismatches = common.coq_mismatches
+common.coq_mismatches = lambda pid, imports, pairs, shard=40: _orig_mismatches(pid, imports, pairs, shard)
 
 
 if __name__ == '__main__':
